@@ -147,6 +147,12 @@ class Scenario:
                 o["qsize"] = n.work_queue.qsize()
         except Exception as e:      # projection must never kill a run
             o["obs_error"] = repr(e)[:80]
+        if self.cfg.get("falsy"):
+            for key in ("q", "buf", "slot", "bufs"):
+                if key in o and k != "partition":
+                    o[key] = self.ident(o[key])
+            if k == "partition" and "buf" in o:
+                o["buf"] = [[key, self.ident(v)] for key, v in o["buf"]]
         return o
 
     def op(self, c, arg=None):
@@ -191,10 +197,26 @@ class Scenario:
             log.ev[-1]["obs"] = self.obs()
             log.ev[-1]["op"] = c + (str(arg) if arg else "")
 
+    def payload(self, e):
+        """what is emitted for element e: its id, or -- cfg["falsy"] = {"none": e1, "zero": e2} -- a falsy value"""
+        f = self.cfg.get("falsy") or {}
+        return None if f.get("none") == e else 0 if f.get("zero") == e else e
+
+    def ident(self, x):
+        """payload(s) -> element id(s)"""
+        f = self.cfg.get("falsy") or {}
+        if isinstance(x, (list, tuple)):
+            return [self.ident(y) for y in x]
+        if x is None and "none" in f:
+            return f["none"]
+        if x == 0 and x is not False and "zero" in f:
+            return f["zero"]
+        return x
+
     def _emit(self, src, e):
         self.log.ev  # noqa
         self.log.add("src", e=e, src=src + 1)
-        aprobe.do_emit(self.log, self.sources[src], e, e, [self.tags[e]])
+        aprobe.do_emit(self.log, self.sources[src], e, self.payload(e), [self.tags[e]])
 
     def enabled(self, c, arg=None, max_elems=4):
         loop, log = self.loop, self.log
@@ -276,6 +298,13 @@ def run(cfg, schedule):
             if sc.enabled(c, arg, cfg.get("max_elems", 4)):
                 sc.op(c, arg)
         sc.drain()
+        if cfg.get("falsy"):
+            for ev in sc.log.ev:
+                if ev["ev"] == "deliver" and "rawx" in ev:
+                    ev["rawx"] = sc.ident(ev["rawx"])
+                    ev["x"] = aprobe.flat(ev["rawx"])
+                if ev["ev"] == "emit_call":
+                    ev["x"] = ev["e"]
         return {"cfg": {k: v for k, v in cfg.items()}, "schedule": list(schedule), "ev": sc.log.ev}
     finally:
         sc.close()
